@@ -61,6 +61,8 @@ func synthDeflate(r *Rand) []byte {
 	w := &bitW{}
 	nblocks := 1 + r.Intn(3)
 	hist := 0
+	var prevDistSyms, prevDistLens []int
+	var prevDistCodes []uint32
 	for b := 0; b < nblocks; b++ {
 		final := uint(0)
 		if b == nblocks-1 && r.Intn(12) != 0 {
@@ -127,7 +129,7 @@ func synthDeflate(r *Rand) []byte {
 				}
 				litLens = lensOver(r, nlit, 2+r.Intn(40), 7+r.Intn(9), must)
 				switch r.Intn(8) {
-				case 0:
+				case 0, 2:
 					distLens = make([]int, ndist) // no distance codes
 				case 1:
 					distLens = make([]int, ndist)
@@ -239,6 +241,25 @@ func synthDeflate(r *Rand) []byte {
 			}
 			nsym := r.Intn(60)
 			for i := 0; i < nsym; i++ {
+				if len(lenSyms) > 0 && len(distSyms) == 0 && hist > 0 && r.Intn(8) == 0 {
+					// a length symbol in a block that declares no distance codes (invalid): followed by
+					// a code word of the PREVIOUS block's distance tree, which a decoder must not remember
+					ls := lenSyms[r.Intn(len(lenSyms))]
+					w.code(litCodes[ls], uint(litLens[ls]))
+					if ls-257 < len(flLenBase) {
+						w.bits(0, flLenExtra[ls-257])
+					}
+					if len(prevDistSyms) > 0 {
+						ds := prevDistSyms[r.Intn(len(prevDistSyms))]
+						w.code(prevDistCodes[ds], uint(prevDistLens[ds]))
+						if ds < 30 {
+							w.bits(0, flDistExtra[ds])
+						}
+					} else {
+						w.bits(r.U64(), 5)
+					}
+					continue
+				}
 				if len(lenSyms) > 0 && len(distSyms) > 0 && hist > 0 && r.Intn(3) == 0 {
 					ls := lenSyms[r.Intn(len(lenSyms))]
 					w.code(litCodes[ls], uint(litLens[ls]))
@@ -271,6 +292,9 @@ func synthDeflate(r *Rand) []byte {
 			}
 			if litLens[256] > 0 && r.Intn(25) != 0 {
 				w.code(litCodes[256], uint(litLens[256]))
+			}
+			if len(distSyms) > 0 {
+				prevDistSyms, prevDistCodes, prevDistLens = distSyms, distCodes, distLens
 			}
 		}
 	}
